@@ -120,7 +120,8 @@ func report(cfg *runCfg, g *Gen, results []*fnResult, obls []*Obligation, engine
 			lines = append(lines, fmt.Sprintf("KNOWN-FINDING: property=%s %s (%s)", cfg.prop, kf.What, o.Name))
 			return
 		}
-		if !decided && hasBase && !inBase[o.Name] && !(o.Kind == "requires" && inBase[normRequires(o.Name)]) && !inBase[normClause(o.Name)] {
+		tainted := o.fx != nil && o.fx.taintedBy != ""
+		if !decided && hasBase && (tainted || (!inBase[o.Name] && !(o.Kind == "requires" && inBase[normRequires(o.Name)]) && !inBase[normClause(o.Name)])) {
 			// a new obligation that no solver decided: undecided, and a violation only when a
 			// counterexample search yields an input that fails on the real code
 			os.MkdirAll(replayDir, 0o755)
@@ -132,7 +133,11 @@ func report(cfg *runCfg, g *Gen, results []*fnResult, obls []*Obligation, engine
 				return
 			}
 			os.Remove(path)
-			fmt.Fprintf(os.Stderr, "UNDECIDED: %s status=%s (not in baseline, no failing input reproduced; no violation claimed)\n", o.Name, o.Status)
+			why := "not in baseline"
+			if tainted {
+				why = "the function calls " + o.fx.taintedBy + ", about which nothing is known"
+			}
+			fmt.Fprintf(os.Stderr, "UNDECIDED: %s status=%s (%s, no failing input reproduced; no violation claimed)\n", o.Name, o.Status, why)
 			return
 		}
 		violations++
